@@ -71,6 +71,30 @@ def queries(x, fracs, straddle):
     return xq, kind
 
 
+EXACT_FWD = {"CS_Photo": lambda E: math.log(E * 1000.0), "CS_Rayl": lambda E: math.log(E * 1000.0), "CS_Compt": lambda E: math.log(E * 1000.0),
+             "CS_Energy": math.log}
+
+
+def exact_knot_args(x, inv, fwd_exact, reach=6):
+    """for every knot: the doubles next to inv(knot) whose exact (glibc, as in C) transform equals the knot; the lowest and the highest of them"""
+    out = []
+    with np.errstate(all="ignore"):
+        c = inv(np.asarray(x, dtype=float))
+    cand = [c]
+    up = c.copy(); dn = c.copy()
+    for _ in range(reach):
+        up = np.nextafter(up, np.inf); dn = np.nextafter(dn, -np.inf)
+        cand += [up.copy(), dn.copy()]
+    cand = np.stack(cand, axis=1)                      # knots x candidates
+    for k in range(len(x)):
+        hits = sorted(float(a) for a in cand[k] if a > 0 and np.isfinite(a) and fwd_exact(float(a)) == x[k])
+        if hits:
+            out.append(hits[0])
+            if hits[-1] != hits[0]:
+                out.append(hits[-1])
+    return np.array(out, dtype=float)
+
+
 def anomalies(x):
     """indices k with x[k+1] < x[k] (non-monotone abscissae in shipped data)"""
     return np.nonzero(np.diff(x) < 0)[0]
@@ -82,7 +106,7 @@ def run(ctx, B):
     fr_seed = float(rng.uniform(0.05, 0.95))
     fracs = [0.0, 0.5] if quick else [0.0, 0.5, 0.1, 0.25, 0.75, 0.9, fr_seed]
     mac = protos.macro_values(B.dir)
-    total_intervals = 0; nontrivial = 0
+    total_intervals = 0; nontrivial = 0; nexact = 0
     anomalies_seen = []
     for cfg in ("A", "K"):
         if ctx.expired():
@@ -112,6 +136,13 @@ def run(ctx, B):
                 xq, kind = queries(x, fracs, straddle=True)
                 with np.errstate(all="ignore"):
                     arg = F.inv(xq)
+                if fam in EXACT_FWD:
+                    # arguments whose transform, computed as the library computes it, IS a knot bit for bit (inv(knot) lands within a few ulp of it; its
+                    # neighbouring doubles are searched): the interval search meets x == xa[k], and on duplicated abscissae (absorption edges) h == 0
+                    ex = exact_knot_args(x, F.inv, EXACT_FWD[fam])
+                    nexact += len(ex)
+                    arg = np.concatenate([arg, ex]); kind = np.concatenate([kind, np.zeros(len(ex), dtype=int)])
+                    xq = arg        # only its length is used below
                 Zc.append(np.full(len(xq), Z)); Sc.append(np.full(len(xq), s)); Ac.append(arg)
                 meta.append((len(xq), kind))
                 total_intervals += len(x) - 1
@@ -226,9 +257,15 @@ def run(ctx, B):
                         okval = np.where(ext_dc, okval | okext | (err & (val == 0)), okval)
                         inside = inside | ext_zone | ext_dc
                         inside &= ~below_edge
+                # a few ulp around the first and the last knot the library's transformed argument may fall on either side: value or failure.  Where the table is
+                # in the argument's own space (no transform) there is no such doubt: AT the first and AT the last knot, and anywhere between, a value is due
+                if F.fwd is ident:
+                    lo_err_ok = nearlo & (xa < x[0]); hi_err_ok = band & (xa > x[-1])
+                else:
+                    lo_err_ok = nearlo; hi_err_ok = band & (xa > x[-1] - ulp)
                 ok = np.where(must_fail, err & (val == 0.0), okval)
-                ok = np.where(nearlo & ~must_fail, okval | (err & (val == 0.0)), ok)
-                ok = np.where(band & ~must_fail, okval | (err & (val == 0.0) & (xa > x[-1] - ulp)), ok)
+                ok = np.where(nearlo & ~must_fail, okval | (err & (val == 0.0) & lo_err_ok), ok)
+                ok = np.where(band & ~must_fail, okval | (err & (val == 0.0) & hi_err_ok), ok)
                 if fam == "FF":
                     z0 = arg == 0.0
                     ok = np.where(z0, (~err) & (val == Z), ok)
@@ -249,7 +286,7 @@ def run(ctx, B):
                     iv = "first" if kk == 0 else ("last" if kk >= len(x) - 2 else "mid")
                     key = "%s|%s|Z=%d|sh=%d|%s|%s|%s" % (cfg, F.fn, Z, s, where, iv, sym)
                     args = [int(Z), float(arg[j])] if not F.shell else [int(Z), int(s), float(arg[j])]
-                    exp = dict(type="error") if must_fail[j] else dict(type="accept", values=[float(er_[j]), float(el_[j])], rtol=RTOL, error_ok=bool(band[j] or nearlo[j]))
+                    exp = dict(type="error") if must_fail[j] else dict(type="accept", values=[float(er_[j]), float(el_[j])], rtol=RTOL, error_ok=bool(lo_err_ok[j] or hi_err_ok[j]))
                     ctx.violation(key, "%s%r [%s]: spline value %r/%r (interval %d of %d, transformed arg %r in [%r,%r]) but got %r err=%s" % (
                         F.fn, tuple(args), cfg, float(er_[j]), float(el_[j]), kk, len(x) - 1, float(xa[j]), float(x[0]), float(x[-1]), float(val[j]), bool(err[j])),
                         dict(cfg=cfg, calls=[dict(fn=F.fn, args=args, expect=exp)]))
@@ -258,7 +295,7 @@ def run(ctx, B):
                                 got=float(rec[len(Zc) // 2]["v0"])))
         X.close()
     ctx.add(nontrivial=nontrivial)
-    ctx.notes.update(knot_intervals=total_intervals, fractions=fracs, data_anomalies=[list(a) for a in anomalies_seen])
+    ctx.notes.update(knot_intervals=total_intervals, exact_knot_hits=nexact, fractions=fracs, data_anomalies=[list(a) for a in anomalies_seen])
     ctx.cov["rule"] = ("every knot interval of every spline table (both configurations): left knot + interior fractions %r, last knot, straddles of both "
                        "table ends by 1e-12..1e-3 and the 1e-7 round-off band; distinct_nontrivial = number of distinct intervals with a non-zero "
                        "second derivative at either end (a swapped coefficient is invisible on the others)" % (fracs,))
